@@ -9,7 +9,7 @@ TEXTS = {
  'C05': ('Droop proportionality for solid coalitions', 'one disjunction over all candidate subsets S and all k per path'),
  'C06': ('Gregory transfer invariants at ballot level', 'observer around logAction; tallies = sum of ballot values, transfer value rounded down to the last digit (fused or two-step form), values only shrink'),
  'C07': ('lowest / sure-loser exclusion, largest surplus first, declared tie order', 'symbolic tie-break permutation; inequalities over the preceding snapshot at every exclusion, surplus choice and tie; differential second run with an independent permutation'),
- 'C08': ('Meek/Warren invariants at clean snapshots', 'equalities and ranges over the symbolic record at the snapshots the property lists; omega / stable exit conditions'),
+ 'C08': ('Meek/Warren invariants at clean snapshots', 'equalities and ranges over the symbolic record at the snapshots the property lists; omega / stable exit conditions (observer on assignments to E.surplus: a stable exit needs a surplus that did not decrease)'),
  'C09': ('monotone candidate status, seat bounds, non-decreasing rounds', 'walk over consecutive snapshots of every feasible path (the set of paths is the set of all histories within the bounds)'),
  'C10': ('presentation independence', 'metamorphic symbolic execution (lines reordered and split by symbolic amounts) plus token-mode layout/comment/nickname variants of the reader'),
  'C11': ('neutrality under renumbering; withdrawn == deleted', 'metamorphic symbolic execution over all id permutations (symbolic tie order carried) and withdrawn-vs-deleted pairs'),
@@ -18,10 +18,10 @@ TEXTS = {
  'C14': ('printed form denotes the half-up rounded value', 'real __str__ of the three classes on an unbounded symbolic value with the format string replaced by a recorder; rendering markers'),
  'C15': ('a well-formed file is read as the election it denotes', 'token-mode symbolic execution of the real reader on renderings of independently written structures (symbolic multipliers, number/nickname choice, comment tokens)'),
  'C16': ('any text is a profile or a clean profile error', 'token-mode symbolic execution of the real reader and constructor on token soups and single-token edits of templates; symbolic candidate count for the ranking array typecode'),
- 'C17': ('option precedence and statutory immunity', 'real Options methods on symbolic option values for all layer presence patterns; count-mode differential with perturbing options from caller / file / both'),
+ 'C17': ('option precedence and statutory immunity', 'real Options methods (getopt, setopt return values, record, unused, overrides) on symbolic option values for all layer presence patterns; count-mode differential with perturbing options from caller / file / both'),
  'C18': ('record is an audit trail; renderings agree', 'status-change/action correspondence on every feasible path; marker-based cross-check of report, dump and json against the record'),
  'C19': ('interrupted count can be reported as a prefix', 'symbolic ballots + line tracer: renderers evaluated at every distinct record state on every path; syntactic no-try/finally check; real KeyboardInterrupt replay'),
- 'C20': ('independence from process history', 'havoc of the measured class-level write set before a symbolically counted election (inductive step over histories) + same profile counted twice'),
+ 'C20': ('independence from process history', 'havoc of the measured class-level write set and of every class-level container a count writes to, before a symbolically counted election (inductive step over histories) + same profile counted twice'),
 }
 from props import registry
 m = json.load(open('/verif/MANIFEST.json'))
